@@ -46,6 +46,7 @@ type c13OriginCtx struct {
 	handler *types.Named
 	errT    types.Type
 	active  map[ast.Node]bool
+	depth   int
 }
 
 func c13CheckWrapperOrigins(c *core.Ctx, g *c13Graph) (bool, string) {
@@ -121,6 +122,18 @@ func (oc *c13OriginCtx) returnedFuncs(wrap *c13Node) []c13FuncBody {
 			}
 		}
 		switch v := e.(type) {
+		case *ast.CallExpr:
+			// `return guard(w.AcquirePermission, w.RecordResult, handler)`: the function value is
+			// built by a same-package function; the handler it calls is recognised by its type
+			if id := c13CalleeIdentOf(v.Fun); id != nil && oc.depth < 3 {
+				if fo, ok := info.Uses[id].(*types.Func); ok && fo.Pkg() == wrap.pkg.Types {
+					if fd := declOf(wrap.pkg, fo); fd != nil {
+						oc.depth++
+						out = append(out, oc.returnedFuncs(&c13Node{pkg: wrap.pkg, decl: fd, body: fd.Body})...)
+						oc.depth--
+					}
+				}
+			}
 		case *ast.FuncLit:
 			out = append(out, c13FuncBody{wrap, v.Type, v.Body})
 		case *ast.Ident, *ast.SelectorExpr:
